@@ -1565,6 +1565,13 @@ func (fc *FnCtx) havocItem(st *State, pre *State, item string, env *SpecEnv) {
 			if t == nil {
 				panic(unsupportedErr{"unknown type in assigns: " + item})
 			}
+			if g := fc.eng.ghostField(t, tn[di+1:]); g != nil {
+				gt := fc.eng.resolveGhostType(g)
+				k := "F$" + structKeyName(t) + ".ghost_" + g.Name
+				fc.comp(st, k, "(Array Int "+fc.smt.sortOf(gt)+")")
+				fc.havocComp(st, k)
+				return
+			}
 			_, su, _ := derefStruct(t)
 			for i := 0; su != nil && i < su.NumFields(); i++ {
 				if su.Field(i).Name() == tn[di+1:] {
@@ -2166,6 +2173,10 @@ func (fc *FnCtx) contractMods(call *ast.CallExpr, f *types.Func, ct *Contract, m
 			tn := specTypeText(target)
 			di := strings.LastIndex(tn, ".")
 			if t := fc.eng.resolveType(fc.eng.pkgs[ct.Pkg], tn[:di]); t != nil {
+				if g := fc.eng.ghostField(t, tn[di+1:]); g != nil {
+					fc.addComp(ms, "F$"+structKeyName(t)+".ghost_"+g.Name, nil)
+					continue
+				}
 				if _, su, _ := derefStruct(t); su != nil {
 					if i := fieldIndex(su, tn[di+1:]); i >= 0 {
 						k, _ := fc.fieldKey(t, su.Field(i))
